@@ -31,6 +31,9 @@ void c01_case(Tape& t, Ctx& ctx) {
   using Vec = typename Spline::VectorType;
   constexpr int nc = 2 * S;
   const ld TAUF = tau_fwd(S);
+  // residuals of the defining equations (interpolation, boundary states) are far better conditioned than the coefficients:
+  // measured worst over 3e6 cases 6e-16 / 1.2e-14 / 2.3e-12 (cubic / quintic / septic); tolerance >= 400x above that
+  const ld TAUR = S == 2 ? 1e-12L : (S == 3 ? 1e-11L : 1e-9L);
   SplineCase<D> c = gen_spline_case<D>(t, S, wellscaled_ratio(S));
   const int N = c.N;
   // dyadic variant: durations k/64 (k in 16..64, ratio <= 4), start j/64 -> every sum and difference is exact
@@ -153,7 +156,7 @@ void c01_case(Tape& t, Ctx& ctx) {
       for (int d = 0; d < D; ++d) {
         ld e = std::max(fabsl((ld)g1(d) - target(d)), fabsl((ld)g2(d) - target(d)));
         ctx.maxi(std::string("interp_right_err_") + SplineOf<D, S>::name(), (double)(e / sc));
-        VCHECK(ctx, e <= TAUF * sc, "interp-right",
+        VCHECK(ctx, e <= TAUR * sc, "interp-right",
                rname << " " << SplineOf<D, S>::name() << ": right limit at knot " << i << " coordinate " << d << " is " << g17(g1(d)) << " / " << g17(g2(d)) << ", waypoint " << g17(target(d)) << " (N=" << N << ")");
       }
       if (vec_same_bits(g1, target)) ctx.label("right-limit-bitwise"); else ctx.label("right-limit-within-tol");
@@ -167,16 +170,16 @@ void c01_case(Tape& t, Ctx& ctx) {
       for (int d = 0; d < D; ++d) {
         ld e1 = fabsl((ld)l1(d) - target(d));
         ctx.maxi(std::string("interp_left_err_") + SplineOf<D, S>::name(), (double)(e1 / sc));
-        VCHECK(ctx, e1 <= TAUF * sc, "interp-left",
+        VCHECK(ctx, e1 <= TAUR * sc, "interp-left",
                rname << " " << SplineOf<D, S>::name() << ": left limit at knot " << i << " coordinate " << d << " is " << g17(l1(d)) << ", waypoint " << g17(target(d)) << " (scale " << lg(sc) << ", N=" << N << ", T=" << g17(Teff[sg]) << ")");
         ld e2 = fabsl((ld)l2(d) - target(d));
-        VCHECK(ctx, e2 <= TAUF * sc + 4 * vs * U, "interp-left-global",
+        VCHECK(ctx, e2 <= TAUR * sc + 4 * vs * U, "interp-left-global",
                rname << " " << SplineOf<D, S>::name() << ": evaluation one ulp before knot " << i << " coordinate " << d << " is " << g17(l2(d)) << ", waypoint " << g17(target(d)));
       }
       if (i == N) {
         Vec l3 = traj.evaluate(bk[N], 0), l4 = traj.evaluate(sp.getEndTime(), 0);
         for (int d = 0; d < D; ++d)
-          VCHECK(ctx, fabsl((ld)l3(d) - target(d)) <= TAUF * sc + 4 * vs * U && same_val(l3(d), l4(d)), "interp-end",
+          VCHECK(ctx, fabsl((ld)l3(d) - target(d)) <= TAUR * sc + 4 * vs * U && same_val(l3(d), l4(d)), "interp-end",
                  rname << " " << SplineOf<D, S>::name() << ": evaluation at the end time coordinate " << d << " is " << g17(l3(d)) << ", last waypoint " << g17(target(d)));
       }
     }
@@ -194,9 +197,9 @@ void c01_case(Tape& t, Ctx& ctx) {
       sce = std::max(sce, (ld)c.M / RefSpline::ipow(Teff[N - 1], m));
       ld es = std::max(fabsl((ld)a1(d) - bs(d)), fabsl((ld)a2(d) - bs(d))), ee = fabsl((ld)e1(d) - be(d));
       ctx.maxi(std::string("boundary_err_") + SplineOf<D, S>::name(), (double)std::max(es / scs, ee / sce));
-      VCHECK(ctx, es <= TAUF * scs, "boundary-start",
+      VCHECK(ctx, es <= TAUR * scs, "boundary-start",
              rname << " " << SplineOf<D, S>::name() << ": derivative " << m << " at the first knot, coordinate " << d << " is " << g17(a1(d)) << " but the supplied start state is " << g17(bs(d)) << " (N=" << N << ")");
-      VCHECK(ctx, ee <= TAUF * sce, "boundary-end",
+      VCHECK(ctx, ee <= TAUR * sce, "boundary-end",
              rname << " " << SplineOf<D, S>::name() << ": derivative " << m << " at the last knot, coordinate " << d << " is " << g17(e1(d)) << " but the supplied end state is " << g17(be(d)) << " (N=" << N << ", scale " << lg(sce) << ")");
     }
   }
